@@ -100,9 +100,11 @@ func parseCfg(lines []string, def HarnessCfg) HarnessCfg {
 				cfg.Feasible = true
 			case "stub":
 				// stub=full.Name:harnessFunc
-				i := strings.LastIndex(v, ":")
-				if i > 0 {
-					cfg.Stubs[v[:i]] = v[i+1:]
+				for _, one := range strings.Split(v, ",") {
+					i := strings.LastIndex(one, ":")
+					if i > 0 {
+						cfg.Stubs[one[:i]] = one[i+1:]
+					}
 				}
 			default:
 				cfg.Opts[k] = v
